@@ -281,6 +281,7 @@ def units(ctx):
 
 
 SPEC = Spec(
+    lean=['IntervalMeasure.lean', 'Folds.lean'],
     prop=PROP, level="other",
     functions=[(UT, "merge_kernel_intervals"), (BA, "BreakdownAnalysis._get_gpu_kernel_type_time"), (BA, "BreakdownAnalysis._aggr_gpu_kernel_time"),
                (BA, "BreakdownAnalysis.get_gpu_kernel_breakdown")],
